@@ -17,6 +17,24 @@ CHECKS = {
              "search by named guards and demonstrated by stored replays.",
         tech=TECH % ("", "oracle = byte-array reference model, op by op and after restart"),
     ),
+    "C02": dict(
+        profile="format", cat="exploration", ref="DESIGN.md section 3.3, section 4 C02, FORMAT_NOTES.md",
+        text="Seeded search over 2..5 sessions of the mixed H/V/VS/SD/GR/AN workload (plain, linked-block with 1..3 blocks "
+             "per table, appended and promoted, external, compressed, chunked objects, aliases, deletes; descriptor blocks "
+             "of 1..8 or 16 entries, DD caching on/off, linked-block and Vdata-buffer hooks). After every session end and "
+             "every Hsync the bytes on the simulated disk are read by an independent reader that implements only "
+             "FORMAT_NOTES.md: magic, acyclic in-bounds descriptor chain, no duplicate tag/ref, extents inside the file, "
+             "no overlap except identical aliases, linked-block/external/compressed/chunked records, chunk tables, "
+             "Vdata and Vgroup records. At session ends additionally: descriptor set and logical content of every "
+             "element equal the library's Hfind/Hread, Vdata/Vgroup records equal VSinquire/VF*/Vgettagrefs, SD/GR "
+             "values equal SDreaddata/GRreadimage, and HDgetdatainfo/VSgetdatainfo/SDgetdatainfo (also per chunk)/"
+             "GRgetdatainfo/ANgetdatainfo report exactly the reader's extents for info_count 0, 1, n-1, n, n+3 with "
+             "canaries behind the arrays. 5 000 / 120 000 histories.",
+        note="Trusts FORMAT_NOTES.md as the statement of the published format and the small reader written from it; "
+             "skipping-Huffman and n-bit payloads are checked structurally only; external elements and chunked images "
+             "are left out of the raw-location comparison; at Hsync points only the structural rules are checked.",
+        tech=TECH % ("", "oracle = independent format-only reader over the durable image at every close/flush point, differential against the library's own reads"),
+    ),
     "C03": dict(
         profile="sdarray", cat="exploration", ref="DESIGN.md section 4 C03",
         text="Seeded search over SD histories: datasets of rank 0..4 (spot ranks to 32), 9 number types x 3 flavours, "
@@ -193,7 +211,7 @@ NOT_APPLICABLE = {
 
 # claimed by the design but whose check is not built yet in this tree (moved to CHECKS as they land)
 PENDING = {
-    "C02": "format", "C03": "sdarray", "C07": "vdata", "C08": "vgroup",
+    "C03": "sdarray", "C07": "vdata", "C08": "vgroup",
     "C09": "raster", "C10": "attrs", "C11": "annot", "C12": "ddmap", "C13": "handles", "C14": "readonly",
     "C16": "iofault", "C17": "crash", "C20": "limits",
 }
